@@ -11,6 +11,8 @@ mod report;
 mod runner;
 mod schema;
 mod seeds;
+mod valgen;
+mod wire;
 
 fn usage() -> ! {
     eprintln!("usage: zv check <ID> [quick|thorough] | zv replay <path> | zv gen <start> [sibling...] | zv worker | zv setup");
